@@ -59,6 +59,7 @@ enum SK { CS, LS, FS, HS, DS, LS6 };   // shape kinds: constant, clipped (bound 
 enum BK { FB, HB, DB };           // buffer kinds: fixed, bounded, dynamic
 
 struct Model { L shape; std::vector<long> buf; };
+using T_elem = int;
 
 // ---- generic access -----------------------------------------------------------------------------------------------------
 template <class A> static auto* flat_ptr(A& a) { return a.data(); }
@@ -75,7 +76,7 @@ static long layout_offset(const L& idx, const L& shape, bool col) {
 }
 
 // ---- the subject template ----------------------------------------------------------------------------------------------
-enum { N_CTOR_DEF, N_CTOR_COPY, N_ASSIGN, N_ASSIGN_SELF, N_RESIZE, N_WRITE };
+enum { N_CTOR_DEF, N_CTOR_COPY, N_ASSIGN, N_ASSIGN_SELF, N_RESIZE, N_WRITE, N_ASSIGN_X };
 struct Op { int kind, slot, a; };
 template <class A, int SKIND, int BKIND, long SCAP, long BCAP, bool COL, bool LEGACY = false, bool GENERIC_RESIZE = false> struct NdSubject : Subject {
     // SCAP: fixed dim (FS, LS, CS) / dim capacity (HS); LS additionally: every extent <= 4.  BCAP: element count (FB) / capacity (HB)
@@ -83,7 +84,8 @@ template <class A, int SKIND, int BKIND, long SCAP, long BCAP, bool COL, bool LE
     NdSubject(const char* n) : nm_(n) {
         for (int s = 0; s < 2; s++) { ops.push_back({N_CTOR_DEF, s, 0}); ops.push_back({N_CTOR_COPY, s, 0}); ops.push_back({N_ASSIGN, s, 0}); ops.push_back({N_ASSIGN_SELF, s, 0});
             if (SKIND != CS) for (int k = 0; k < (int)menu().size(); k++) ops.push_back({N_RESIZE, s, k});
-            for (int p = 0; p < 9; p++) ops.push_back({N_WRITE, s, p}); }
+            for (int p = 0; p < 9; p++) ops.push_back({N_WRITE, s, p});
+            if (LEGACY) ops.push_back({N_ASSIGN_X, s, 0}); }   // legacy classes: assignment from an array of ANOTHER kind with the same shape (their cross-type operator=)
         static_assert(sizeof(A) <= nmc::bfs::Arena::SLOT_BYTES, "slot too small");
     }
     bool thorough_ = false;
@@ -93,11 +95,12 @@ template <class A, int SKIND, int BKIND, long SCAP, long BCAP, bool COL, bool LE
     int depth(bool t) const override { const_cast<NdSubject*>(this)->thorough_ = t; return t ? 6 : 4; }
     bool mutating(int o) const override { return ops[(size_t)o].kind != N_CTOR_DEF; }
     std::string op_name(int o) const override { const Op& p = ops[(size_t)o]; std::string x = p.slot ? "b" : "a", y = p.slot ? "a" : "b";
-        switch (p.kind) { case N_CTOR_DEF: return x + "=A()"; case N_CTOR_COPY: return x + "=A(" + y + ")"; case N_ASSIGN: return x + "=" + y; case N_ASSIGN_SELF: return x + "=" + x; case N_RESIZE: return x + ".resize" + SL(menu()[(size_t)p.a]); default: return x + "[pos " + S(p.a) + "]=77"; } }
+        switch (p.kind) { case N_CTOR_DEF: return x + "=A()"; case N_CTOR_COPY: return x + "=A(" + y + ")"; case N_ASSIGN: return x + "=" + y; case N_ASSIGN_SELF: return x + "=" + x; case N_RESIZE: return x + ".resize" + SL(menu()[(size_t)p.a]); case N_ASSIGN_X: return x + "=(dynamic ndarray_t of the same shape, values 50..)"; default: return x + "[pos " + S(p.a) + "]=77"; } }
     void reset() override { alive[0] = alive[1] = false; model[0] = Model(); model[1] = Model(); }
     bool enabled(int o) override { const Op& p = ops[(size_t)o]; int s = p.slot, t = 1 - s;
         switch (p.kind) { case N_CTOR_DEF: return !alive[s]; case N_CTOR_COPY: return !alive[s] && alive[t]; case N_ASSIGN: return alive[s] && alive[t]; case N_ASSIGN_SELF: return alive[s];
-            case N_RESIZE: return alive[s] && (thorough_ || p.a < NQUICK); default: return alive[s] && p.a < (long)model[s].buf.size() && !model[s].shape.empty(); } }
+            case N_RESIZE: return alive[s] && (thorough_ || p.a < NQUICK); case N_ASSIGN_X: return LEGACY && alive[s] && !model[s].shape.empty();
+            default: return alive[s] && p.a < (long)model[s].buf.size() && !model[s].shape.empty(); } }
     static bool representable(const L& s) {
         long d = (long)s.size(), n = nmc::prod(s);
         if (SKIND == CS) return false;
@@ -158,6 +161,10 @@ template <class A, int SKIND, int BKIND, long SCAP, long BCAP, bool COL, bool LE
             if (got) { std::string e = observe(s, true); if (!e.empty()) { r = e; break; } if (model[s].shape != shp) r = std::string(s ? "b" : "a") + ".resize" + SL(shp) + " returned true but shape() = " + SL(model[s].shape); }
             else { std::string e = observe(s, false); if (!e.empty()) r = "after a REFUSED resize" + SL(shp) + ": " + e; }
         } break;
+        case N_ASSIGN_X: if constexpr (LEGACY) {
+            na::ndarray_t<nmtools_list<T_elem>, nmtools_list<size_t>> rhs; { nmtools_list<size_t> sl; sl.resize(model[s].shape.size()); for (size_t i = 0; i < model[s].shape.size(); i++) nm::at(sl, i) = (size_t)model[s].shape[i]; rhs.resize(sl); }
+            long n = nmc::prod(model[s].shape); for (long i = 0; i < n; i++) { nm::at(rhs.data_, (size_t)i) = (T_elem)(50 + i); model[s].buf[(size_t)i] = 50 + i; }
+            { Track tr; *x = rhs; } } break;
         default: { L idx = nmc::unflat(p.a, model[s].shape); long off = layout_offset(idx, model[s].shape, COL);
             with_index(*x, idx, [&](const auto& ix) { nm::apply_at(*x, ix) = 77; }); model[s].buf[(size_t)off] = 77; } break;
         }
